@@ -441,6 +441,57 @@ func c03TwoParamDriver(maxCases int) func(c *explore.Chooser, k int) *c03Case {
 	}
 }
 
+// c03FunResultDriver: package_info functions whose RESULT is a function (int->(int->int)): a fully applied call
+// has a function type although no argument is missing - it is a call, not a closure over missing parameters
+// (after seed C03g decided "partial application" by the call's type).  Forms: result bound and applied, the fully
+// applied call as a pipe stage, a two-parameter function applied in one or in two steps; package extp or _.
+func c03FunResultDriver() func(c *explore.Chooser, k int) *c03Case {
+	return func(c *explore.Chooser, k int) *c03Case {
+		cs := &c03Case{kind: "foreign-call-function-result"}
+		named := c.Bool()
+		form := c.Choose(5)
+		pkg, q := "_", ""
+		if named {
+			pkg, q = "extp", "extp."
+		}
+		var fo strings.Builder
+		var impl string
+		switch form {
+		case 0, 1, 2:
+			fmt.Fprintf(&fo, "package_info %s =\n  let MkAdd%d: int->(int->int)\n\n", pkg, k)
+			impl = fmt.Sprintf("func MkAdd%d(a int) func(int) int {\n\tfmt.Printf(\"MkAdd(%%d)\\n\", a)\n\treturn func(b int) int {\n\t\tfmt.Printf(\"inner(%%d)\\n\", b)\n\t\treturn a*10 + b\n\t}\n}\n", k)
+			switch form {
+			case 0: // bound, then applied twice: the outer function runs once
+				fmt.Fprintf(&fo, "let fr%d () =\n  let r = %sMkAdd%d 5\n  r 3 |> frt.Printf1 \"%%d\\n\"\n  r 4 |> frt.Printf1 \"%%d\\n\"\n\n", k, q, k)
+				cs.want = []string{"MkAdd(5)", "inner(3)", "53", "inner(4)", "54"}
+			case 1: // the fully applied call as a pipe stage
+				fmt.Fprintf(&fo, "let fr%d () =\n  3 |> %sMkAdd%d 5 |> frt.Printf1 \"%%d\\n\"\n\n", k, q, k)
+				cs.want = []string{"MkAdd(5)", "inner(3)", "53"}
+			case 2: // handed to slice.Map
+				fmt.Fprintf(&fo, "let fr%d () =\n  slice.Map (%sMkAdd%d 5) [1; 2] |> slice.Last |> frt.Printf1 \"%%d\\n\"\n\n", k, q, k)
+				cs.want = []string{"MkAdd(5)", "inner(1)", "inner(2)", "52"}
+			}
+		case 3, 4:
+			fmt.Fprintf(&fo, "package_info %s =\n  let MkAd2%d: int->string->(int->string)\n\n", pkg, k)
+			impl = fmt.Sprintf("func MkAd2%d(a int, s string) func(int) string {\n\tfmt.Printf(\"MkAd2(%%d,%%s)\\n\", a, s)\n\treturn func(b int) string {\n\t\tfmt.Printf(\"inner(%%d)\\n\", b)\n\t\treturn fmt.Sprint(s, a*10+b)\n\t}\n}\n", k)
+			if form == 3 { // all arguments at once
+				fmt.Fprintf(&fo, "let fr%d () =\n  let r = %sMkAd2%d 5 \"s\"\n  r 3 |> frt.Println\n\n", k, q, k)
+			} else { // one argument missing first (a closure), then supplied (now a call whose result is a function)
+				fmt.Fprintf(&fo, "let fr%d () =\n  let p = %sMkAd2%d 5\n  let r = p \"s\"\n  r 3 |> frt.Println\n\n", k, q, k)
+			}
+			cs.want = []string{"MkAd2(5,s)", "inner(3)", "s53"}
+		}
+		if named {
+			cs.goDecls = "EXTP:" + impl
+		} else {
+			cs.goDecls = impl
+		}
+		cs.fo = fo.String()
+		cs.client = fmt.Sprintf("\tfr%d()\n", k)
+		return cs
+	}
+}
+
 func paren(s string) string {
 	if strings.ContainsAny(s, " ") && !strings.HasPrefix(s, "(") && !strings.HasPrefix(s, "[") && !strings.HasPrefix(s, "{") && !strings.HasPrefix(s, "\"") {
 		return "(" + s + ")"
@@ -765,6 +816,7 @@ func checkC03(c *core.Ctx) {
 	collect(c03TwoParamDriver(uf))
 	collect(c03LetDriver(lp))
 	collect(c03ForeignDriver(fa))
+	collect(c03FunResultDriver())
 	c.Count(0, total.States, total.Transitions, 0)
 	const per = 150
 	var wg sync.WaitGroup
